@@ -583,7 +583,9 @@ pub fn run(args: &Args, rep: &mut Report) {
         if rng.bool() || s == 0 { ex.push(("late", "1".into())) }
         if rng.chance(1, 3) { ex.push(("boom", "1".into())) }
         // scenarios 2 and 3 always, others sometimes: connection churn from 8 clients before the interrupt
-        if s == 2 || s == 3 || rng.chance(1, 6) { ex.push(("churn", if s == 3 { "400".into() } else { "150".to_string() })) }
+        // (3 000 exchanges per client = 24 000 sessions in about half a second: measured, a lost update of the shared session counter under this
+        // churn shows in 4 of 4 runs, under 400 exchanges in 1 of 4)
+        if s == 2 || s == 3 || rng.chance(1, 6) { ex.push(("churn", if s == 2 || s == 3 { "3000".into() } else { "1000".to_string() })) }
         // scenario 1 always, others sometimes: the process inherited SIG_IGN for SIGINT
         if s == 1 || rng.chance(1, 4) { ex.push(("sigign", "1".into())) }
         let b = ex.iter().any(|(k, _)| *k == "boom");
